@@ -112,6 +112,8 @@ namespace ST
             m_chars = is_reffed() ? move.m_chars : m_data;
             traits_t::copy(m_data, move.m_data, local_length);
             move.m_size = 0;
+            move.m_chars = move.m_data;
+            move.m_data[0] = 0;
         }
 
         buffer(const char_T *data, size_t size)
@@ -190,9 +192,11 @@ namespace ST
         {
             std::swap(m_chars, move.m_chars);
             std::swap(m_size, move.m_size);
-            traits_t::copy(m_data, move.m_data, local_length);
+            std::swap(m_data, move.m_data);
             if (!is_reffed())
                 m_chars = m_data;
+            if (!move.is_reffed())
+                move.m_chars = move.m_data;
             return *this;
         }
 
